@@ -428,7 +428,7 @@ def run(ctx, chk, tier="quick"):
                     a0 = nxt
                 prov_ok = isinstance(a0, ast.Name) and a0.id == inter_name
     chk.ob("C04.O3", prov_ok, where_of(g, loop), "runs = indices of each mask of get_true_interval_masks(%s)" % (inter_name,),
-           "maximal True runs of the interstorm flag", key="classify_interstorms|runs-source",
+           "maximal True runs of the interstorm flag", key="classify_interstorms|runs-source", scope=g,
            why="intervals must be the maximal stretches of the flag that was stored")
 
 
